@@ -203,6 +203,26 @@ func c10observe(kd c10kind, m goatlang.Value, ref *c10ref) (problem string, obs 
 	}
 	sort.Strings(rs)
 	o = append(o, "range="+strings.Join(rs, ","))
+	// the rendering shows exactly the live entries (entry order is Go's unspecified map order: compared as a set)
+	if !kd.anyVal {
+		var ws []string
+		for i, v := range ref.val {
+			ws = append(ws, strings.Trim(kd.lits[i], `"`)+":"+fmt.Sprint(v))
+		}
+		if kd.name == "float64" {
+			ws = ws[:0]
+			for i, v := range ref.val {
+				ws = append(ws, fmt.Sprint([]float64{0.5, 1, 1.5}[i])+":"+fmt.Sprint(v))
+			}
+		}
+		sort.Strings(ws)
+		str := m.String()
+		gs := strings.Fields(strings.TrimSuffix(strings.TrimPrefix(str, "map["), "]"))
+		sort.Strings(gs)
+		if !strings.HasPrefix(str, "map[") || strings.Join(gs, " ") != strings.Join(ws, " ") {
+			problem = fmt.Sprintf("String() = %s, the live entries are [%s]", str, strings.Join(ws, " "))
+		}
+	}
 	return problem, strings.Join(o, " ")
 }
 
